@@ -145,7 +145,9 @@ def cases(tier):
     firsts = [(200, "application/json", "model_ref"), (200, "application/json", ["array", "model_ref"]), (200, "none", "no-schema"),
               (201, "text/plain", "str"), (200, "application/octet-stream", "file"), (200, "application/json", "date"),
               (200, "application/json", "any"), (200, "application/json", "no-schema"),
-              (200, "text/plain", "int"), (200, "text/plain", "num"), (200, "text/html", "bool")]
+              (200, "text/plain", "int"), (200, "text/plain", "num"), (200, "text/html", "bool"),
+              # a download typed as text / JSON whose schema is binary, declared BEFORE ordinary text / JSON responses
+              (200, "text/csv", "file"), (200, "application/json", "file")]
     seconds = [(404, "application/json", "model2"), (404, "application/json", "model_ref"), (404, "none", "no-schema"),
                (500, "text/plain", "str"), (204, "none", "no-schema"), ("default", "application/json", "model2"),
                ("2XX", "application/json", "model2"), ("abc", "application/json", "model2"), (404, "application/xml", "model2"),
@@ -241,13 +243,17 @@ def _body_bytes(media, kind, value):
     return json.dumps(value).encode()
 
 
-def _check_parsed(spec, value, parsed, key, icls):
+def _check_parsed(spec, value, parsed, key, icls, all_untyped=True):
     media, kind = _eff_media(spec["media"]), spec["kind"]
     site = media.split(";")[0]
     k = f"{key}/{spec['status']}/{icls}"
     raw = _body_bytes(spec["media"], kind, value)
-    if kind in ("no-schema", "any") and parsed is None:
-        return []          # latitude: a response without a (non-empty) schema may decode to nothing
+    if kind == "no-schema" and parsed is None:
+        return []          # a media type entry WITHOUT a schema may decode to nothing (the repository's own tests pin that)
+    if kind == "any" and parsed is None and (all_untyped or not site.startswith("application/json") and "+json" not in site):
+        # latitude: when NO response of the operation has a typed schema the generated function has nothing to parse and may
+        # return nothing; next to a typed response an untyped JSON response is decoded like any other (the JSON value comes back)
+        return []
     if spec["media"] == "none":
         if parsed is not None:
             return [{"oracle": "parsed", "site": "none", "key": k, "detail": f"no-content response parsed to {parsed!r}"}]
@@ -307,6 +313,9 @@ def run_case(p):
         except Exception as exc:  # noqa: BLE001
             return {"outcome": f"import-fails:{type(exc).__name__}", "nontrivial": False}
         documented = {}
+        # "typed" = a response the generator can decode into something: integer status, supported media type, non-empty schema
+        all_untyped = all(s_["media"] == "none" or s_["kind"] in ("no-schema", "any") or not isinstance(s_["status"], int) or _eff_media(s_["media"]) == "application/xml"
+                          for s_ in p["table"])
         for spec in p["table"]:
             st = spec["status"]
             if not isinstance(st, int):
@@ -363,7 +372,7 @@ def run_case(p):
                         else:
                             parsed = val
                         parsed_vals[variant] = parsed
-                        viol += _check_parsed(spec, value, parsed, key, icls)
+                        viol += _check_parsed(spec, value, parsed, key, icls, all_untyped)
                         decoded += 1
                     reprs = {v: repr(reencode(x)) if not hasattr(x, "payload") else "file" for v, x in parsed_vals.items()}
                     if len(set(reprs.values())) > 1:
